@@ -102,7 +102,8 @@ contract(
     ensures={"sets-the-override": "key in %s and %s[key] == val" % (L_, L_), "only-that-key": SAME_EXCEPT1,
              "shared-layer-untouched": "%s == old(%s)" % (G_, G_)},
     notes="ASSUMED at Env.swap's call sites: the value is valid for the variable (no conversion) and the variable has no `sync` partner - under exactly these two "
-          "conditions the clauses are PROVED on the real function (contract Env._set_item#strong)",
+          "conditions the clauses are PROVED on the real function (contract Env._set_item#strong) (a value that FAILS to convert while a swap is being entered is "
+          "not modelled here - the proof of that path was too slow to be stable; it is covered by the bounded nesting check, form `bad-value`)",
 )
 contract(
     E + "Env._del_item", "C11", verify=False, variant_id="assumed",
@@ -183,10 +184,10 @@ contract(
             "captured-values": "forall_str(lambda k: implies(k in old, %s))" % CAPTURED,
             "rest-untouched": "forall_str(lambda k: implies(not (k in old), %s))" % REST_ENTRY,
             "shared-layer-untouched": "%s == old(%s)" % (G_, G_)}, havoc_only=["old"], havoc_exprs=[L_]),
-        "for#3": dict(invariant={
+        "for#3": dict(snapshot="restore-entry", invariant={
             "restored-so-far": "forall_str(lambda k: implies(%s, %s))" % (PROCESSED, RESTORED),
-            "rest-as-the-body-left-it": "forall_str(lambda k: implies(not %s, %s))" % (PROCESSED, AS_BODY_LEFT),
-            "shared-layer-untouched": "%s == at('after-body', %s)" % (G_, G_)}, havoc_only=[], havoc_exprs=[L_]),
+            "rest-as-it-was-when-restoring-began": "forall_str(lambda k: implies(not %s, %s))" % (PROCESSED, AS_BODY_LEFT.replace("after-body", "restore-entry")),
+            "shared-layer-untouched": "%s == at('restore-entry', %s)" % (G_, G_)}, havoc_only=[], havoc_exprs=[L_]),
     },
     raises={"Exception+": True, "KeyboardInterrupt": True},
     ensures=POST, ensures_exc=POST,
